@@ -11,10 +11,10 @@
 (* sequences of any length, that (a) a match state stays alive exactly when *)
 (* the prefix can still be extended, and (b) a state is a valid end exactly *)
 (* when the sequence read so far matches the expression.  For expressions   *)
-(* the library refused (or that the harness' parser refused) the initial    *)
+(* the library refused (or that the recogniser PMExprSyntax refuses) the     *)
 (* state checks the rejection rules instead.                                *)
 (***************************************************************************)
-EXTENDS PMContent
+EXTENDS PMExprSyntax
 
 Exprs == Input.exprs
 Alphabet == Range(Input.alphabet)
@@ -26,7 +26,11 @@ vars == <<k, q, S, w>>
 View == <<k, q, S>>
 
 Built(i) == Exprs[i].built
-Parsed(i) == Exprs[i].parsed
+(* the expression is read by the specification's own recogniser (PMExprSyntax) from the characters
+   of the string the schema declares; evaluated once per expression *)
+ParseTab == [i \in 1..Len(Exprs) |-> Parse(Exprs[i].chars)]
+Parsed(i) == ParseTab[i].ok
+Ast(i) == ParseTab[i].e
 Auto(i) == Exprs[i].auto
 EdgeTo(i, st, a) ==
   LET es == Auto(i)[st].edges
@@ -35,7 +39,7 @@ EdgeTo(i, st, a) ==
 
 Init == /\ k \in 1..Len(Exprs)
         /\ q = IF Built(k) THEN 1 ELSE 0
-        /\ S = IF Parsed(k) THEN {Exprs[k].ast} ELSE {}
+        /\ S = IF Parsed(k) THEN {Ast(k)} ELSE {}
         /\ w = <<>>
 Next == /\ Built(k) /\ Parsed(k)
         /\ (q # 0 \/ S # {})
@@ -46,7 +50,7 @@ Next == /\ Built(k) /\ Parsed(k)
              /\ k' = k
 Spec == Init /\ [][Next]_vars
 
-WellFormed(i) == Parsed(i) /\ ExprOK(Exprs[i].ast)
+WellFormed(i) == Parsed(i) /\ ExprOK(Ast(i))
 (* rejection: malformed expressions are refused at schema construction; well-formed ones are not *)
 RejectsMalformed == (w = <<>> /\ ~WellFormed(k)) => ~Built(k)
 AcceptsWellFormed == (w = <<>> /\ WellFormed(k)) => Built(k)
@@ -58,5 +62,9 @@ Deterministic == (Built(k) /\ q # 0) =>
   \A i, j \in 1..Len(Auto(k)[q].edges) : i # j => Auto(k)[q].edges[i].t # Auto(k)[q].edges[j].t
 (* inline_content / leaf-ness as the library reports them agree with the expression *)
 InlineAgree == (w = <<>> /\ Built(k) /\ WellFormed(k)) =>
-  (Exprs[k].inline <=> \E a \in First(Exprs[k].ast) : IsInlineType(a))
+  (Exprs[k].inline <=> \E a \in First(Ast(k)) : IsInlineType(a))
+(* machinery self-check: the harness' independent parser (used to print expressions and to filter the
+   batch) reads every string the same way as the specification's recogniser *)
+ParsersAgree == w = <<>> => (Exprs[k].parsed = Parsed(k) /\ (Parsed(k) => Exprs[k].ast = Ast(k)))
 =============================================================================
+
